@@ -9,7 +9,7 @@ use crate::interpreter::io::Printer;
 use crate::interpreter::string_utils::fix_length;
 
 /// Handles the PRINT and LPRINT statements.
-#[derive(Debug)]
+#[derive(Clone, Debug)]
 pub struct PrintState {
     printer_type: PrinterType,
     file_handle: FileHandle,
@@ -34,6 +34,9 @@ impl PrintState {
         self.file_handle = 0.into();
         self.format_string = None;
         self.format_string_index = 0;
+        // a separator pending from an interrupted statement (a PRINT inside a
+        // function called from a PRINT list) says nothing about this statement
+        self.should_skip_new_line = false;
     }
 
     pub fn get_printer_type(&self) -> PrinterType {
